@@ -10,6 +10,7 @@ import traceback
 from typing import Any, Callable, Dict, List, Optional
 
 ROOT = os.path.dirname(os.path.dirname(os.path.abspath(__file__)))
+OUT = os.environ.get("VERIF_OUT") or ROOT   # where evidence/ and replays/ are written
 EXIT_OK, EXIT_VIOLATION, EXIT_HARNESS = 0, 1, 2
 
 
@@ -67,7 +68,7 @@ class Report:
         # a version leg (VERIF_LEG=311: the same check under another interpreter) keeps its own files
         self.leg = os.environ.get("VERIF_LEG", "")
         self.filetag = pid + (f".leg{self.leg}" if self.leg else "")
-        d = os.path.join(ROOT, "replays", self.filetag)
+        d = os.path.join(OUT, "replays", self.filetag)
         if os.path.isdir(d):
             for fn in os.listdir(d):
                 if fn.endswith(".json"):
@@ -160,7 +161,7 @@ class Report:
                 if self.ob(obligation)["status"] != "failed":
                     self.ob(obligation)["status"] = "known-finding"
                 return f"known:{fid}"
-        d = os.path.join(ROOT, "replays", self.filetag)
+        d = os.path.join(OUT, "replays", self.filetag)
         os.makedirs(d, exist_ok=True)
         path = os.path.join(d, f"{key}.json")
         with open(path, "w") as f:
@@ -173,7 +174,7 @@ class Report:
     # ---------------------------------------------------------------- finish
     def merge_leg(self, leg: str, rc: int, stdout: str, stderr: str) -> None:
         """Fold the result of the same check run under another interpreter into this report."""
-        p = os.path.join(ROOT, "evidence", f"{self.pid}.leg{leg}.json")
+        p = os.path.join(OUT, "evidence", f"{self.pid}.leg{leg}.json")
         tag = f"[CPython 3.{leg[1:]} leg] "
         if rc == 2 or not os.path.exists(p):
             self.harness_error(f"{tag}exit {rc}: {stderr[-800:]}")
@@ -263,8 +264,8 @@ class Report:
             "wall_s": round(wall, 2),
             "violations": len(self.violations),
         }
-        os.makedirs(os.path.join(ROOT, "evidence"), exist_ok=True)
-        with open(os.path.join(ROOT, "evidence", f"{self.filetag}.json"), "w") as f:
+        os.makedirs(os.path.join(OUT, "evidence"), exist_ok=True)
+        with open(os.path.join(OUT, "evidence", f"{self.filetag}.json"), "w") as f:
             json.dump(_jsonable(ev), f, indent=1)
         print(f"[{self.pid}] tier={self.tier} obligations={n_ob} discharged={n_dis} paths={self.paths} "
               f"queries={self.queries} solver={self.solver_time:.1f}s replays={self.replays} "
